@@ -535,6 +535,19 @@ func init() {
 			return Ptr{o: it.newObj(t, tv)}
 		},
 		"(*time.Ticker).Stop": func(it *Interp, a []Value) Value { return nil },
+		"time.NewTimer": func(it *Interp, a []Value) Value { // a one-shot timer channel on the symbolic clock
+			d, ok := a[0].(int64)
+			if !ok {
+				it.unsup("time.NewTimer symbolic duration")
+			}
+			it.nchan++
+			ch := &ChanV{id: it.nchan, timer: true, deadline: it.timeAdd(it.sch.now, d)}
+			t := it.prog.ImportedPackage("time").Type("Timer").Type()
+			tv := it.zero(t).(*StructV)
+			tv.F[0] = ch // field C
+			return Ptr{o: it.newObj(t, tv)}
+		},
+		"(*time.Timer).Stop": func(it *Interp, a []Value) Value { return true },
 		P + "vCallMethod": func(it *Interp, a []Value) Value { // rcvr any, method string, args any, reply any -> error
 			rcvr := a[0].(IfaceV)
 			name, _ := a[1].(*StrV).isConc()
